@@ -62,7 +62,8 @@ Definition ncase_dom_explicit (c : ncase) : bool :=
        (nc_bsegs c ++ name_of (nc_names c) (nc_a c) :: ncase_segs c)
   && opt_nat_eqb (nc_old c) (Some (nc_a c)).
 
-Definition ncase_dom (c : ncase) : bool := ncase_dom_canonical c || ncase_dom_explicit c.
+Definition ncase_dom (c : ncase) : bool :=
+  (ncase_dom_canonical c || ncase_dom_explicit c) && hash_decidable (nc_hash c).
 
 Definition ncase_model (c : ncase) : res str :=
   get_new_path (nc_names c) (nc_dflt c) (nc_base c) (tabs_of (length (nc_names c)) (nc_atab c))
@@ -154,19 +155,30 @@ Definition hcase_dom_explicit (c : hcase) : bool :=
   && list_eqb str_eqb (path_segments (hc_path c))
        (hc_bsegs c ++ name_of (hc_names c) (hc_a c) :: hcase_segs c).
 
+(** the harness feeds every step with the hash in the convention of the start URL (browser form
+    "#…" or bare), so the suffix expected at every step is the same; a bare fragment that starts with
+    '#' cannot occur (it would be read as browser form) *)
 Definition hcase_dom (c : hcase) : bool :=
-  hcase_common c && (hcase_dom_canonical c || hcase_dom_explicit c).
+  hcase_common c && (hcase_dom_canonical c || hcase_dom_explicit c) && hash_decidable (hc_hash c).
+
+(** the harness re-parses the URL after every step and feeds the next step with the hash in the
+    convention of the start URL *)
+Fixpoint with_suffixes (search : str) (browser : bool) (h : str) (ps : list str) : list str :=
+  match ps with
+  | [] => []
+  | p :: r => (p ++ url_suffix search h) :: with_suffixes search browser (reparse_hash browser (hash_part h)) r
+  end.
 
 Definition hcase_model (c : hcase) : res (list str) :=
   match history (hc_names c) (hc_dflt c) (hc_base c) (tabs_of (length (hc_names c)) (hc_atab c))
           (hc_by_path c) (hc_path c) (Some (hc_a c)) (hc_ls c) with
   | Panic s => Panic s
-  | Ok ps => Ok (map (fun p => p ++ url_suffix (hc_search c) (hc_hash c)) ps)
+  | Ok ps => Ok (with_suffixes (hc_search c) (starts_with_hash (hc_hash c)) (hc_hash c) ps)
   end.
 
 Definition hspec (c : hcase) : bool :=
   match hc_impl c with
-  | Ok us => list_eqb str_eqb us (map (fun p => p ++ url_suffix (hc_search c) (hc_hash c)) (hcase_expected c))
+  | Ok us => list_eqb str_eqb us (map (fun p => p ++ spec_suffix (hc_search c) (hc_hash c)) (hcase_expected c))
   | Panic _ => false
   end.
 
